@@ -1305,11 +1305,17 @@ func runWorld(seed uint64, idx int, tier string, only [][]crashPoint) (res *resu
 					"async": got.QPR, "sync": run0.sync.QPR}})
 		}
 	}
+	// the uninterrupted run once more, with another goroutine working on the global bytes pool between
+	// the steps of processFrac (pool.go)
+	if only == nil && !w.BadUTF8 {
+		runPool(res, w, r, root, base, vfp)
+	}
 	return res
 }
 
 func main() {
 	registerChildOps()
+	registerPoolOps()
 	storectl.MaybeChild()
 	seed := flag.Uint64("seed", 1, "")
 	tier := flag.String("tier", "quick", "")
@@ -1320,7 +1326,7 @@ func main() {
 		fmt.Fprintln(os.Stderr, "need -out")
 		os.Exit(2)
 	}
-	cw, err := casefile.New(*out, "C19", "From Coq Require Import ZArith List.\nFrom VLib Require Import CaseLib.\nFrom C19 Require Import Model CaseDefs.\nImport ListNotations.\nOpen Scope N_scope.", 60)
+	cw, err := casefile.New(*out, "C19", "From Coq Require Import ZArith List.\nFrom VLib Require Import CaseLib.\nFrom C19 Require Import Model ModelStart CaseDefs.\nImport ListNotations.\nOpen Scope N_scope.", 60)
 	if err != nil {
 		panic(err)
 	}
